@@ -1008,6 +1008,29 @@ static void exec_exec(Run &R, TaskRt &T, int ti, int oi, const Op &op) {
 
 #include "cli_proc.inc"
 
+// the caller overwrites its own buffer (everything: it owns the memory); the instance keeps its offset
+static void exec_refill(Run &R, TaskRt &T, const Op &op) {
+  Inst &I = T.slots[op.slot & 3];
+  if (!I.m.live || !I.al || I.ext < 0) {
+    R.st.ops_skipped++;
+    return;
+  }
+  uint8_t *p = extbuf_ptr(I.ext);
+  size_t n = extbuf_len(I.ext);
+  if (op.fill >= 0)
+    memset(p, op.fill, n);
+  else {
+    Rng rr(op.uid ^ 0x1234);
+    for (size_t i = 0; i < n; i++) p[i] = (uint8_t)rr.next();
+  }
+  I.m.segs.clear();
+  CodeView cv;
+  cv.p = p;
+  cv.cap = (long)n;
+  refresh_mirror(I, cv, 0);
+  R.st.bump("caller_refilled_buffer");
+}
+
 static void exec_sabotage(Run &R, TaskRt &T, const Op &op) {
   Inst &I = T.slots[op.slot & 3];
   if (!I.m.live || !I.al) return;
@@ -1063,6 +1086,7 @@ static void exec_op(Run &R, int ti, int oi) {
     case OP_BIN_FILE: exec_bin_file(R, T, ti, oi, op); break;
     case OP_EXEC: exec_exec(R, T, ti, oi, op); break;
     case OP_LAUNCH: exec_launch(R, ti, oi, op); break;
+    case OP_REFILL: exec_refill(R, T, op); break;
     case OP_SABOTAGE: exec_sabotage(R, T, op); break;
   }
   T.ctx.trace = nullptr;
